@@ -488,7 +488,7 @@ class C17(Check):
     def budget(self, tier):
         q = tier == 'quick'
         return {
-            'xw_iterfit': 150 if q else 6000, 'xw_traceset': 60 if q else 2500,
+            'xw_iterfit': 150 if q else 6000, 'xw_traceset': 60 if q else 2500, 'xw_suite': 1,
             'reject_options': 2500 if q else 120000,
             'reject_near': 1200 if q else 60000,
             'reject_grow': 2500 if q else 120000,
@@ -506,6 +506,8 @@ class C17(Check):
     def gen(self, cls, rng, i):
         if cls == 'xw_iterfit':
             return self.xw.gen('C10', rng)
+        if cls == 'xw_suite':
+            return self.xw.gen_suite(['pydl/pydlutils/tests/test_bspline.py', 'pydl/pydlutils/tests/test_trace.py', 'pydl/pydlutils/tests/test_math.py'])
         if cls == 'xw_traceset':
             return self.xw.gen('C13', rng, classes=('tset_fit', 'tset_table'))
         if cls.startswith('reject'):
@@ -1458,7 +1460,7 @@ class C17(Check):
     # ------------------------------------------------------------ evidence
     def summarise(self, case):
         if case.get('kind') == 'xwork':
-            return {'kind': 'xwork', 'driver': case['driver'], 'driver_class': case.get('dcls')}
+            return {'kind': 'xwork', 'driver': case['driver'], 'driver_class': case.get('dcls'), 'files': case.get('files')}
         c = {}
         for k, v in case.items():
             if isinstance(v, list) and len(v) > 12:
